@@ -110,6 +110,22 @@ PatCodeFrom(pat, n, w, positions) ==
        IN IF nx = {} THEN FALSE ELSE PatCodeFrom(pat, n + 1, w, nx)
 PatCode(pat, w) == PatCodeFrom(pat, 1, w, {0})
 
+(***************************************************************************)
+(* Hop extraction from path metadata.  The interface list of a path names, *)
+(* in travel order, the egress interface of the first AS, the ingress and   *)
+(* egress interface of every transit AS and the ingress interface of the    *)
+(* last AS: [ia, id].  The first hop has no ingress (0), the last no egress.*)
+(* A list that is not of that shape has no hops (ok = FALSE).              *)
+(***************************************************************************)
+HopsOf(ifs) ==
+  LET n == Len(ifs)  m == (n - 2) \div 2 IN
+  IF n < 2 \/ n % 2 = 1 \/ \E k \in 1..m : ifs[2*k].ia # ifs[2*k + 1].ia
+  THEN [ok |-> FALSE, hops |-> <<>>]
+  ELSE [ok |-> TRUE,
+        hops |-> <<[isd |-> ifs[1].ia.isd, as |-> ifs[1].ia.as, in |-> 0, eg |-> ifs[1].id]>>
+                 \o [k \in 1..m |-> [isd |-> ifs[2*k].ia.isd, as |-> ifs[2*k].ia.as, in |-> ifs[2*k].id, eg |-> ifs[2*k + 1].id]]
+                 \o <<[isd |-> ifs[n].ia.isd, as |-> ifs[n].ia.as, in |-> ifs[n].id, eg |-> 0]>>]
+
 \* Policy { acl, hop_pattern }: both must allow
 PolicyAllows(acl, pat, w) == PatAllows(pat, w) /\ AclAllows(acl, w)
 
